@@ -179,13 +179,28 @@ def checkList (name : String) (conf : Nat → Bool) (model pre obs : List Host) 
 def St.burst (s : St) (calls : List String) : St × String :=
     if calls.isEmpty then (s, "bad-op") else
     if s.alias then (s, "bad-op") else
-    let cs : List (String × Nat) := calls.map (fun w => match w.splitOn ":" with | [c, i] => (c, nat i) | _ => ("", 0))
+    -- (w-s11f) `addhosts:<id>+<id>+...` = ONE AddHosts call among the concurrent calls: to the history it is AddHost of
+    -- each of its hosts (`cs`: one record per host); the model applies it as `TA.addHosts` (AddHost per host for a bare policy)
+    let cs : List (String × Nat) := calls.flatMap (fun w => match w.splitOn ":" with
+      | [c, i] => if c == "addhosts" then (i.splitOn "+").map (fun x => ("add", nat x)) else [(c, nat i)]
+      | _ => [("", 0)])
     if cs.any (fun c => evOf c.1 == none || (s.host? c.2).isNone) then (s, "bad-op") else
     let p := s.t.pol
-    let s' := cs.foldl (fun (acc : St × Bool) c => match acc.1.host? c.2 with
+    let one (acc : St × Bool) (c : String × Nat) : St × Bool := match acc.1.host? c.2 with
         | some h => let n := acc.1.call c.1 h
                     (n, acc.2 || (n.t.hosts.map (·.id) != acc.1.t.hosts.map (·.id)))
-        | none => acc) (s, false)
+        | none => acc
+    let s' := calls.foldl (fun (acc : St × Bool) w => match w.splitOn ":" with
+        | [c, i] =>
+          if c == "addhosts" then
+            let hs := (i.splitOn "+").filterMap (fun x => acc.1.host? (nat x))
+            if acc.1.isTA then
+              let t' := acc.1.t.addHosts hs
+              ({ acc.1 with t := t', evs := (hs.map (fun h => (Ev.add, h))).reverse ++ acc.1.evs, inj := [] },
+               acc.2 || (t'.hosts.map (·.id) != acc.1.t.hosts.map (·.id)))
+            else hs.foldl (fun a h => one a ("add", h.id)) acc
+          else one acc (c, nat i)
+        | _ => acc) (s, false)
     ({ s'.1 with epoch := s'.1.epoch + 1, pending := some ⟨p.l0, p.l1, p.l2, s.t.hosts, cs, s'.2⟩ }, "ok")
 
 /-- ops
@@ -219,7 +234,8 @@ def St.burst (s : St) (calls : List String) : St × String :=
                                                    `C11_rotation_balanced_partial` proves `balanced` for the model;
                                                    `excluded` (nothing done) under an excluded condition of `offer` or
                                                    the counter bound
-  burst <call>:<id> ...                            the calls run CONCURRENTLY (one goroutine each) → ok
+  burst <call>:<id> ...                            the calls run CONCURRENTLY (one goroutine each) → ok;
+                                                   `addhosts:<id>+<id>+...` = one AddHosts call among them
   gburst <gate id> <call>:<id> ...                 the same under a forced schedule: every call is parked where it first
                                                    reads the address of host <gate id> until all calls are in progress → ok
   settle L0=.. L1=.. L2=.. [T=..]                  SPEC-BACKED: the lists observed after the burst → ok | lost/phantom/dup/reordered -/
@@ -291,7 +307,8 @@ def step (s : St) (ws : List String) : St × String :=
     -- a GATED burst: the same calls, run under the schedule "every call parked at its first read of host <gate>
     -- until all are in progress"; the model's answer does not depend on the schedule (`C11_cow_concurrent_linearizable`)
     if (s.host? (nat gate)).isNone || calls.isEmpty || calls.any (fun w => w.splitOn ":" == ["add", gate] ||
-        w.splitOn ":" == ["remove", gate] || w.splitOn ":" == ["hup", gate] || w.splitOn ":" == ["hdown", gate])
+        w.splitOn ":" == ["remove", gate] || w.splitOn ":" == ["hup", gate] || w.splitOn ":" == ["hdown", gate] ||
+        (match w.splitOn ":" with | [c, i] => c == "addhosts" && (i.splitOn "+").contains gate | _ => false))
     then (s, "bad-op") else s.burst calls
   | "burst" :: calls => s.burst calls
   | "settle" :: kvs =>
